@@ -28,10 +28,13 @@ of the two merge loops always succeed; the full-word comparisons (`startingNode.
 startingNodeOptions`, `required.Options != other.Options`, `currentNode.Options == nextNode.Options`)
 are modelled on the exported option word `o`.
 
-Switches: `on` = the gated rewrites are enabled (`!syntax.VerifDisableRewrites`); `ll` = the general
-loop·loop case of `coalesce` (`a*a*` ⇒ `a*`, which keeps the SET of successes but not the list) is
-enabled — the soundness theorem of `Props/C05.lean` is for `ll = false`, the correspondence leg runs
-`ll = true` and requires both to agree before it certifies a pattern.
+Switches: `on` = the gated rewrites are enabled (`!syntax.VerifDisableRewrites`); `ll` = the cases
+that COLLAPSE DUPLICATE SUCCESSES are enabled: the general loop·loop case of `coalesce` (`a*a*` ⇒ `a*`),
+merging One/Set branches whose classes overlap (`a|a` ⇒ `[a]`, `[ab]|b`), dropping a second Empty branch.
+They keep the set of successes and the order of first occurrences but not the list (`a|a` has the
+success twice), so `Spec.m` differs as a list although no context can tell.  The soundness theorem of
+`Props/C05.lean` (equality of `Spec.m`) is for `ll = false`; the correspondence leg runs `ll = true`
+and requires both variants to agree before it certifies a pattern (bucket `dup-collapsing-case`).
 -/
 import RegexVerif.Model.Spec
 import RegexVerif.Model.AutoAtomic
@@ -214,34 +217,39 @@ def letterCls : CP → Option Cls
   | .set s => some s
   | .notone _ => none
 
+/-- two positive classes without categories that share no rune (decided on the ranges) -/
+def clsDisjoint : Cls → Cls → Bool
+  | .base false rs [], .base false rs' [] => rs.all (fun r => rs'.all (fun r' => decide (r.2 < r'.1) || decide (r'.2 < r.1)))
+  | _, _ => false
+
 /-- the merge loop over the flattened branches.  `out` is what has been emitted (in order), the
     flags are `wasLastSet` and `lastNodeCannotMerge` -/
-def mergeGo : List RNode → Bool → Bool → List RNode → List RNode
+def mergeGo (ll : Bool) : List RNode → Bool → Bool → List RNode → List RNode
   | out, _, _, [] => out
   | out, wasLast, cannot, nd :: rest =>
     match nd with
-    | .nothing => mergeGo out wasLast cannot rest
+    | .nothing => mergeGo ll out wasLast cannot rest
     | .chr o (.one c) =>
-      if !wasLast || cannot then mergeGo (out ++ [nd]) true false rest
+      if !wasLast || cannot then mergeGo ll (out ++ [nd]) true false rest
       else
         match out.getLast?, out.dropLast with
         | some (.chr po pp), front =>
-          match (letterCls pp).bind (fun s => mergeCls s (.base false [(c, c)] [])) with
-          | some s => mergeGo (front ++ [.chr po (.set s)]) true (!mergeable s) rest
-          | none => mergeGo (out ++ [.chr o (.one c)]) true false rest
-        | _, _ => mergeGo (out ++ [nd]) true false rest
+          match (letterCls pp).bind (fun s => if ll || clsDisjoint s (.base false [(c, c)] []) then mergeCls s (.base false [(c, c)] []) else none) with
+          | some s => mergeGo ll (front ++ [.chr po (.set s)]) true (!mergeable s) rest
+          | none => mergeGo ll (out ++ [.chr o (.one c)]) true false rest
+        | _, _ => mergeGo ll (out ++ [nd]) true false rest
     | .chr o (.set s) =>
-      if !wasLast || cannot || !mergeable s then mergeGo (out ++ [nd]) true (!mergeable s) rest
+      if !wasLast || cannot || !mergeable s then mergeGo ll (out ++ [nd]) true (!mergeable s) rest
       else
         match out.getLast?, out.dropLast with
         | some (.chr po pp), front =>
-          match (letterCls pp).bind (fun s0 => mergeCls s0 s) with
-          | some s2 => mergeGo (front ++ [.chr po (.set s2)]) true (!mergeable s2) rest
-          | none => mergeGo (out ++ [.chr o (.set s)]) true (!mergeable s) rest
-        | _, _ => mergeGo (out ++ [nd]) true (!mergeable s) rest
-    | _ => mergeGo (out ++ [nd]) false false rest
+          match (letterCls pp).bind (fun s0 => if ll || clsDisjoint s0 s then mergeCls s0 s else none) with
+          | some s2 => mergeGo ll (front ++ [.chr po (.set s2)]) true (!mergeable s2) rest
+          | none => mergeGo ll (out ++ [.chr o (.set s)]) true (!mergeable s) rest
+        | _, _ => mergeGo ll (out ++ [nd]) true (!mergeable s) rest
+    | _ => mergeGo ll (out ++ [nd]) false false rest
 
-def mergeLetters (cs : List RNode) : List RNode := mergeGo [] false false (flatAlts cs)
+def mergeLetters (ll : Bool) (cs : List RNode) : List RNode := mergeGo ll [] false false (flatAlts cs)
 
 /-! ## `reduceConcatenation` -/
 
@@ -301,14 +309,12 @@ def addHi : Option Nat → Option Nat → Option Nat
 /-- what `reduceConcatenationWithAdjacentLoops` does with `current` and `next`:
     `none` — nothing; `some (cur', none)` — `next` is absorbed; `some (cur', some next')` — part of
     a Multi is absorbed and the trimmed `next'` becomes the current node -/
-def combine (ll rtl : Bool) : RNode → RNode → Option (RNode × Option RNode)
+def combineFull (rtl : Bool) : RNode → RNode → Option (RNode × Option RNode)
   | .cloop o k p lo hi, .cloop o' k' p' lo' hi' =>
     if o = o' ∧ k = k' ∧ p = p' then
       if k = .atomic ∧ 0 < lo' then none
       else if !canCombine lo hi lo' hi' then none
-      else if ll || hi = some lo || hi' = some lo' || k = .atomic then
-        some (.cloop o k p (lo + lo') (addHi hi hi'), none)
-      else none
+      else some (.cloop o k p (lo + lo') (addHi hi hi'), none)
     else none
   | .cloop o k p lo hi, .chr o' p' =>
     if o = o' ∧ p = p' ∧ k ≠ .atomic then
@@ -334,6 +340,15 @@ def combine (ll rtl : Bool) : RNode → RNode → Option (RNode × Option RNode)
       some (.cloop o .greedy p 2 (some 2), none)
     else none
   | _, _ => none
+
+/-- `ll = false` (the variant the soundness theorem is about): only "an individual item with a
+    loop" (`aa*` ⇒ `a+`), left-to-right -/
+def combine (ll rtl : Bool) (cur nx : RNode) : Option (RNode × Option RNode) :=
+  if ll then combineFull rtl cur nx
+  else
+    match cur, nx with
+    | .chr _ _, .cloop _ _ _ _ _ => if rtl then none else combineFull rtl cur nx
+    | _, _ => none
 
 /-- the scan of `reduceConcatenationWithAdjacentLoops`: `cur` is `n.Children[current]` -/
 def coalesceGo (ll rtl : Bool) : RNode → List RNode → List RNode
@@ -479,29 +494,29 @@ def factorSet (red : Bool → RNode → RNode) (pa : Bool) (o : Nat) (cs : List 
 
 /-! ## `removeRedundantEmptiesAndNothings` -/
 
-def removeEmptiesGo : Bool → List RNode → List RNode
+def removeEmptiesGo (ll : Bool) : Bool → List RNode → List RNode
   | _, [] => []
   | seen, c :: cs =>
     match c with
-    | .nothing => removeEmptiesGo seen cs
-    | .empty => if seen then removeEmptiesGo seen cs else c :: removeEmptiesGo true cs
-    | _ => c :: removeEmptiesGo seen cs
+    | .nothing => removeEmptiesGo ll seen cs
+    | .empty => if seen && ll then removeEmptiesGo ll seen cs else c :: removeEmptiesGo ll true cs
+    | _ => c :: removeEmptiesGo ll seen cs
 
-def removeEmpties (o : Nat) (cs : List RNode) : RNode := mkAlt o (removeEmptiesGo false cs)
+def removeEmpties (ll : Bool) (o : Nat) (cs : List RNode) : RNode := mkAlt o (removeEmptiesGo ll false cs)
 
 /-! ## `reduceAlternation` -/
 
-def reduceAlt (red : Bool → RNode → RNode) (on pa rtl : Bool) (o : Nat) (cs : List RNode) : RNode :=
+def reduceAlt (red : Bool → RNode → RNode) (ll on pa rtl : Bool) (o : Nat) (cs : List RNode) : RNode :=
   match cs with
   | [] => .nothing
   | [c] => c
   | _ =>
-    match mkAlt o (mergeLetters cs) with
+    match mkAlt o (mergeLetters ll cs) with
     | .alt o1 cs1 =>
       match (if on && !rtl then factorText red pa o1 cs1 else .alt o1 cs1) with
       | .alt o2 cs2 =>
         match (if on && !rtl then factorSet red pa o2 cs2 else .alt o2 cs2) with
-        | .alt o3 cs3 => removeEmpties o3 cs3
+        | .alt o3 cs3 => removeEmpties ll o3 cs3
         | n3 => n3
       | n2 => n2
     | n1 => n1
@@ -594,7 +609,7 @@ def reduceNode (ll on rtl : Bool) : Nat → Bool → RNode → RNode
   | 0, _, n => n
   | fuel + 1, pa, n =>
     match n with
-    | .alt o cs => reduceAlt (reduceNode ll on rtl fuel) on pa rtl o cs
+    | .alt o cs => reduceAlt (reduceNode ll on rtl fuel) ll on pa rtl o cs
     | .cat o cs => reduceCat ll rtl o cs
     | .atomic b => reduceAtomic (reduceNode ll on rtl fuel) on rtl (.atomic b)
     | .chr o p => .chr o (reduceCP p)
